@@ -120,6 +120,15 @@ def make_cases(rng, tier):
     for s, e, st in rngs:
         item = ("ref", a) if rng.random() < 0.8 else ("sub", ("ref", a), ("lit", 1))
         pcs.append(pcase(("in", item, ("range", s, e, st)), [a], rows1))
+    # membership in every list of up to three (thorough: four) integer literals over -2, 0, 1, 3 — with repeats and gaps — and
+    # in the same lists with one item computed
+    import itertools
+    rows2 = [{a: v} for v in range(-3, 6)]
+    for k in range(0, 4 if tier == "quick" else 5):
+        for items in itertools.product((-2, 0, 1, 3), repeat=k):
+            pcs.append(pcase(("in", ("ref", a), ("seq", [("lit", x) for x in items])), [a], rows2))
+            if k == 3 and items[0] != items[1]:
+                pcs.append(pcase(("in", ("ref", a), ("seq", [("add", ("lit", items[0]), ("lit", 0))] + [("lit", x) for x in items[1:]])), [a], rows2))
     n = 300 if tier == "quick" else 4000
     for _ in range(n):
         cols = gen.gen_schema(rng, maxk=2, maxn=1, allow_empty=False)
